@@ -279,6 +279,23 @@ def _random(model, res):
                     return arith(None, 'add', base, rng[0]), arith(None, 'add', base, rng[1])
         return None
     decided = False
+    # integer bounds in the right order never give an error: an error exit whose decisions do not compare the two bounds with each other
+    # (a sign test on one of them, say) is taken for some a <= b as well
+    from ..absint import AffCmp
+    for o in outs2:
+        if o.imprecise:
+            continue
+        is_error = (o.kind == 'return' and isinstance(o.value, Err)) or o.kind == 'raise'
+        if not is_error:
+            continue
+        cmps = [s_ for (t_, alt_, s_) in o.notes if isinstance(s_, AffCmp)]
+        both = [s_ for s_ in cmps if set(s_.coeffs) >= set(['a', 'b'])]
+        one = [s_ for s_ in cmps if len(set(s_.coeffs) & set(['a', 'b'])) == 1]
+        if one and not both:
+            res.ob('R3', 'RANDBETWEEN', {'error exit': repr(o.value)[:60]}, False, H.describe([o])[:1])
+            res.violation('R3', 'function:RANDBETWEEN:error-for-valid-bounds', m.where(f),
+                          'RANDBETWEEN(a, b) answers with an error on a condition about one bound alone (%s): integer bounds with a <= b - '
+                          'negative ones included - must give an integer from [a, b]' % '; '.join(H.describe([o])[:1]), func=f.name)
     for o in outs2:
         if o.imprecise or o.kind != 'return':
             continue
